@@ -7,7 +7,8 @@ PROP_V = ["Props/Properties_C02.v", "Props/Properties_C02b.v", "Props/Properties
 GEN_MODULES = ["Consts", "Sites"]
 FLOW_FILES = ['mu.c', 'mu_wait.c', 'common.c', 'nsync_semaphore_futex.c']
 REPLAY_HINT = "VRT_SEED=<seed> [env] _work/h/<scenario>; a STUCK report lists the sleeping threads and the last steps"
-PARTIAL = ["hand-off for the mutex WITH conditional critical sections (MuWaitModel, repaired code): Properties_C06x.C06_sleeper_faces_holder and C06_handoff: in every "
+PARTIAL = ["the hand-off theorems are over MuModel / MuWaitModel, i.e. WITHOUT condition-variable waiters transferred onto the mutex queue: over the mutex + cv wrapper (MuXferModel) only exclusion and the queue / MU_WAITING invariants are established (Properties_C01x); the hand-off invariant lifted to that wrapper is in progress (Properties_C04x when present)",
+           "hand-off for the mutex WITH conditional critical sections (MuWaitModel, repaired code): Properties_C06x.C06_sleeper_faces_holder and C06_handoff: in every "
            "reachable quiescent world every thread asleep in nsync_mu_lock / nsync_mu_rlock / nsync_mu_wait faces a mutex that some thread still holds (or, for a "
            "conditional waiter, has a false condition); the invariant behind it (MU_DESIG_WAKER implies an agent; MU_WAITING set while the queue is non-empty; "
            "MU_WRITER_WAITING and MU_LONG_WAIT have owners; semaphore accounting) holds in every reachable world of programs without nsync_mu_unlock_without_wakeup; "
